@@ -22,6 +22,7 @@ import (
 	"io"
 	"net"
 	"sync"
+	"time"
 )
 
 var (
@@ -43,6 +44,8 @@ type Conn struct {
 	writer   *bufio.Writer
 	reader   *bufio.Reader
 	mu       *sync.Mutex
+	// See SetWriteTimeout()
+	writeTimeout time.Duration
 }
 
 type Receiver interface {
@@ -103,6 +106,13 @@ func NewConn(conn net.Conn, recv Receiver) *Conn {
 	}
 }
 
+// SetWriteTimeout limits the time a write of queued messages to the peer can take. A peer that stops reading makes the write
+// fail after that time (closing the connection) instead of blocking forever with a full message queue, which would block every
+// writer of this connection in turn. It needs to be called before `Start()`. The default, 0, means no limit.
+func (c *Conn) SetWriteTimeout(timeout time.Duration) {
+	c.writeTimeout = timeout
+}
+
 func (c *Conn) Start() {
 	go c.read()
 	go c.write()
@@ -122,11 +132,13 @@ func (c *Conn) write() {
 	for !done {
 		select {
 		case sender := <-c.messages:
+			c.extendWriteDeadline()
 			done = c.checkErr(sender.Send(c.writer))
 			coalescing := true
 			for coalescing && !done {
 				select {
 				case sender, coalescing = <-c.messages:
+					c.extendWriteDeadline() // The buffer is flushed when it's full
 					done = c.checkErr(sender.Send(c.writer))
 				case <-c.closed:
 					done = true
@@ -139,9 +151,16 @@ func (c *Conn) write() {
 		}
 
 		if !done { // Check to avoid resetting `done` to false
+			c.extendWriteDeadline()
 			err := c.writer.Flush()
 			done = c.checkErr(err)
 		}
+	}
+}
+
+func (c *Conn) extendWriteDeadline() {
+	if c.writeTimeout > 0 {
+		_ = c.conn.SetWriteDeadline(time.Now().Add(c.writeTimeout))
 	}
 }
 
